@@ -59,17 +59,17 @@ func VerifLemma_C03B_Cardinality() {
 	wantW := !skip && refBrkCardGroup(pc, true) != refBrkCardGroup(cc, true)
 	if wantSame {
 		verifCover("cardinality class changed")
-		verifAssert(same.n == 1 && same.vbHas("field", cur), "FIELD_SAME_CARDINALITY reports the change at the field")
+		verifAssert(same.n >= 1 && same.vbAt(cur), "FIELD_SAME_CARDINALITY reports the change at the field")
 	} else {
 		verifAssert(same.n == 0, "FIELD_SAME_CARDINALITY silent when the class is unchanged")
 	}
 	if wantWJ {
-		verifAssert(wireJSON.n == 1 && wireJSON.vbHas("field", cur), "WIRE_JSON cardinality reports a group change at the field")
+		verifAssert(wireJSON.n >= 1 && wireJSON.vbAt(cur), "WIRE_JSON cardinality reports a group change at the field")
 	} else {
 		verifAssert(wireJSON.n == 0, "WIRE_JSON cardinality silent inside a group")
 	}
 	if wantW {
-		verifAssert(wire.n == 1 && wire.vbHas("field", cur), "WIRE cardinality reports a group change at the field")
+		verifAssert(wire.n >= 1 && wire.vbAt(cur), "WIRE cardinality reports a group change at the field")
 	} else {
 		verifAssert(wire.n == 0, "WIRE cardinality silent inside a group")
 	}
